@@ -306,6 +306,17 @@ MUTANTS += [
         ("Cargo.toml", "[dependencies]", "[profile.release]\npanic = \"abort\"\n\n[dependencies]")]),
 ]
 
+MUTANTS += [
+    dict(id="M7h", props=["C07"], what="the keyword `false` builds the literal true", edits=[
+        (G, "    FALSE                                => AST::boolean(false),", "    FALSE                                => AST::boolean(true),")]),
+    dict(id="M7i", props=["C07"], what="number literals are parsed and then wrapped to 16 bits", edits=[
+        (G, "    NUMBER                              => AST::integer(i32::from_str(<>).unwrap()),", "    NUMBER                              => AST::integer(i32::from_str(<>).unwrap() as i16 as i32),")]),
+    dict(id="M4f", props=["C04"], what="the compiler prints a progress note to stdout", edits=[
+        (C, "            AST::Print { format, arguments } => {", "            AST::Print { format, arguments } => {\n                if arguments.len() > 8 { println!(\"note: long print\"); }")]),
+    dict(id="M12f", props=["C12", "C07"], what="AST::block drops the Block node around a single statement", edits=[
+        (PA, "    pub fn block(statements: Vec<AST>) -> Self {\n        Self::Block(statements.into_boxed())", "    pub fn block(mut statements: Vec<AST>) -> Self {\n        if statements.len() == 1 { return statements.remove(0); }\n        Self::Block(statements.into_boxed())")]),
+]
+
 MUTANTS = [m for m in MUTANTS if m["edits"]]
 
 BENIGN = [
